@@ -143,3 +143,83 @@ Theorem C03_if_else_step : forall tc idc vc ta ida va tb idb vb (x y z : bool) s
   ScalarInv.fresh_store s -> ScalarInv.step_ok bool PT s s1 w (x || y || z).
 Proof. exact C03Program.ifelse_ok. Qed.
 Print Assumptions C03_if_else_step.
+
+(* ---- collection operations, step level, WHOLE surface language (Proofs/C03Edges.v on the C05 edge theorems):
+   at any point of any program ([Inv] / [InvE] hold at every point: C11_invariant_everywhere,
+   C05_values_are_recorded_with_their_types), the taint that the information-flow specification Spec/Taint.v
+   computes for an accepted zip, unzip, Tuple / NTuple / Object construction, accessor or inner product FROM THE
+   TYPES RECORDED FOR ITS OPERANDS — every secret leaf of an operand counted as tainted ([tvs]) — is within the
+   type recorded for the result ([tv_ok]): no collection operation turns a secret component into a public one.
+   (map, reduce and calls take the annotated return type of the function: the open finding on untruthful annotations.) *)
+From NadaV.Spec Require Import Taint.
+From NadaV.Proofs Require Import TraceMono C11Program C12Steps C05Edges C03Edges.
+
+Theorem C03_zip_keeps_secrecy : forall ρ s, Inv ρ s -> InvE ρ s -> forall a b w s1,
+  eval_rhs GenScalar.G ρ (RZip a b) s = Ok (w, s1) ->
+  exists l r id tl tr T,
+    recorded_as s1 id T (ABinary "Zip" l r) /\ ty_at s1 l tl /\ ty_at s1 r tr
+    /\ tv_ok (TArrT (TTupT (elt_of (tvs tl)) (elt_of (tvs tr)))) T = true.
+Proof. exact (zip_keeps_secrecy GenScalar.G). Qed.
+Print Assumptions C03_zip_keeps_secrecy.
+
+Theorem C03_unzip_keeps_secrecy : forall ρ s, Inv ρ s -> InvE ρ s -> forall a w s1,
+  eval_rhs GenScalar.G ρ (RUnzip a) s = Ok (w, s1) ->
+  exists src id ts T,
+    recorded_as s1 id T (AUnary "Unzip" src) /\ ty_at s1 src ts
+    /\ tv_ok (match elt_of (tvs ts) with TTupT x y => TTupT (TArrT x) (TArrT y) | other => TTupT (TArrT other) (TArrT other) end) T = true.
+Proof. exact (unzip_keeps_secrecy GenScalar.G). Qed.
+Print Assumptions C03_unzip_keeps_secrecy.
+
+Theorem C03_tuple_new_keeps_secrecy : forall ρ s, Inv ρ s -> InvE ρ s -> forall a b w s1,
+  eval_rhs GenScalar.G ρ (RTupleNew a b) s = Ok (w, s1) ->
+  exists i1 i2 id t1 t2 T,
+    recorded_as s1 id T (ANew "TupleNew" [i1; i2]) /\ ty_at s1 i1 t1 /\ ty_at s1 i2 t2
+    /\ tv_ok (TTupT (tvs t1) (tvs t2)) T = true.
+Proof. exact (tuple_new_keeps_secrecy GenScalar.G). Qed.
+Print Assumptions C03_tuple_new_keeps_secrecy.
+
+Theorem C03_ntuple_new_keeps_secrecy : forall ρ s, Inv ρ s -> InvE ρ s -> forall es w s1,
+  eval_rhs GenScalar.G ρ (RNTupleNew es) s = Ok (w, s1) ->
+  exists ids id ts T,
+    recorded_as s1 id T (ANew "NTupleNew" ids) /\ Forall2 (ty_at s1) ids ts /\ tv_ok (TNTT (map tvs ts)) T = true.
+Proof. exact (ntuple_new_keeps_secrecy GenScalar.G). Qed.
+Print Assumptions C03_ntuple_new_keeps_secrecy.
+
+Theorem C03_object_new_keeps_secrecy : forall ρ s, Inv ρ s -> InvE ρ s -> forall fs w s1,
+  eval_rhs GenScalar.G ρ (RObjectNew fs) s = Ok (w, s1) ->
+  exists ids id kts T,
+    recorded_as s1 id T (ANew "ObjectNew" ids) /\ Forall2 (fun i kt => ty_at s1 i (snd kt)) ids kts
+    /\ map fst kts = map fst fs
+    /\ tv_ok (TObjT (combine (map fst kts) (map tvs (map snd kts)))) T = true.
+Proof. exact (object_new_keeps_secrecy GenScalar.G). Qed.
+Print Assumptions C03_object_new_keeps_secrecy.
+
+Theorem C03_index_keeps_secrecy : forall ρ s, Inv ρ s -> InvE ρ s -> forall a i w s1,
+  eval_rhs GenScalar.G ρ (RIndex a i) s = Ok (w, s1) ->
+  exists src ts t,
+    ty_at s1 src (TyNTuple ts)
+    /\ tv_ok (match tvs (TyNTuple ts) with TNTT cs => nth (Z.to_nat i) cs (TLeaf (existsb any_taint cs)) | other => TLeaf (any_taint other) end) t = true
+    /\ ((store s1 = store s /\ to_mir w = Ok t) \/ recorded_as s1 (counter s + 1)%Z t (ANTupleAcc i src)).
+Proof. exact (index_keeps_secrecy GenScalar.G). Qed.
+Print Assumptions C03_index_keeps_secrecy.
+
+Theorem C03_field_keeps_secrecy : forall ρ s, Inv ρ s -> InvE ρ s -> forall a k w s1,
+  eval_rhs GenScalar.G ρ (RField a k) s = Ok (w, s1) ->
+  exists src kts t,
+    ty_at s1 src (TyObject kts)
+    /\ tv_ok (match tvs (TyObject kts) with
+              | TObjT cs => match find (fun kv => String.eqb (fst kv) k) cs with
+                            | Some kv => snd kv
+                            | None => TLeaf (existsb (fun kv => any_taint (snd kv)) cs) end
+              | other => TLeaf (any_taint other) end) t = true
+    /\ ((store s1 = store s /\ to_mir w = Ok t) \/ recorded_as s1 (counter s + 1)%Z t (AObjectAcc k src)).
+Proof. exact (field_keeps_secrecy GenScalar.G). Qed.
+Print Assumptions C03_field_keeps_secrecy.
+
+Theorem C03_inner_product_keeps_secrecy : forall ρ s, Inv ρ s -> InvE ρ s -> forall a b w s1,
+  eval_rhs GenScalar.G ρ (RInner a b) s = Ok (w, s1) ->
+  exists l r id tl tr T,
+    recorded_as s1 id T (ABinary "InnerProduct" l r) /\ ty_at s1 l tl /\ ty_at s1 r tr
+    /\ tv_ok (TLeaf (any_taint (tvs tl) || any_taint (tvs tr))) T = true.
+Proof. exact (inner_product_keeps_secrecy GenScalar.G). Qed.
+Print Assumptions C03_inner_product_keeps_secrecy.
